@@ -343,7 +343,7 @@ theorem sliceShape_natSlices : ∀ (starts shape : List Nat), starts.length = sh
       have := ih ns (by omega)
       simp only [natSlices, List.zip_cons_cons, List.map_cons, sliceShape] at this ⊢
       rw [this]
-      simp only [List.map_cons, Option.some.injEq, List.cons.injEq, and_true, Int.ofNat_eq_natCast]
+      simp only [Option.some.injEq, List.cons.injEq, and_true, Int.ofNat_eq_natCast]
       omega
 
 theorem sliceStarts_natSlices : ∀ (starts shape : List Nat), starts.length = shape.length →
